@@ -13,7 +13,9 @@ for d in seeded/*/; do
 import json
 m=json.load(open('$d/meta.json')); d=m.get('detected_by',[])
 if isinstance(d,dict): d=[d.get('check')]
-print(' '.join(d) if d else m.get('property','${id:0:3}'))")
+d=[x for x in d if x and x[0]=='C' and x[1:3].isdigit()]
+print(' '.join(d) if d else ('OUTSIDE' if m.get('detected_by') else m.get('property','${id:0:3}')))")
+  if [ "$props" = "OUTSIDE" ]; then echo "$id: outside the generated space (see meta.json)"; continue; fi
   rm -rf "$S/src"; cp -r /repo/src "$S/src"
   if ! patch -s -p1 -d "$S" < $d/patch.diff >/dev/null 2>&1; then echo "$id: patch no longer applies"; continue; fi
   res=""
